@@ -287,6 +287,11 @@ func genJob(r *hx.Rng, id string, needs [][2]string, rawNeeds []string, declOutp
 	if r.Chance(1, 12) {
 		ls = append(ls, ind+"unexpected-key: 1")
 	}
+	if r.Chance(1, 10) {
+		// a job that is not finished yet: no `steps:` at all (reported by the parser); what it says
+		// about shells, matrix and the runner is its own business all the same
+		return ls
+	}
 	ls = append(ls, ind+"steps:")
 	n := 1 + r.Intn(3)
 	for i := 0; i < n; i++ {
